@@ -3,6 +3,7 @@
 from __future__ import annotations
 
 import sys
+from decimal import Decimal
 from typing import TYPE_CHECKING
 from typing import Any
 from typing import Generic
@@ -215,6 +216,15 @@ class FloatLiteral(Literal[float]):
 
     def __init__(self, token: Token, value: float):
         super().__init__(token, value)
+
+    def __str__(self) -> str:
+        text = repr(self.value)
+        if "e" in text:
+            # Float literals don't have an exponent. Use positional notation.
+            text = format(Decimal(text), "f")
+            if "." not in text:
+                text += ".0"
+        return text
 
     def __eq__(self, other: object) -> bool:
         return isinstance(other, FloatLiteral) and self.value == other.value
